@@ -84,10 +84,9 @@ def m2_accessor(run, project, L):
     loops, closed forms, helpers and pre-computed shifts are all just evaluated."""
     from ..minieval import Interp, NeedBit, Raised, SymVec, TypeRef
     mod = project.module(VALUES)
-    f = mod.functions().get("tpm_bitfield.decorator.Bit.__get__")
-    if f is None:
-        raise AnalysisError("M2: Bit.__get__ not found in values.py")
-    init = mod.functions().get("tpm_bitfield.decorator.Bit.__init__")
+    from .guards import bitfield_roles, members_source
+    R = bitfield_roles(mod)
+    f, init = R["get"], R["init"]
     n = 0
     bad_reported = set()
     for k, c, bf in bitfield_types(L):
@@ -146,7 +145,8 @@ def m2_accessor(run, project, L):
                        module=mod, node=f, func="Bit.__get__", construct="Bit.__get__ field value")
             made.clear()
             try:
-                got = Interp({"cls": cls}, module_tree=mod.tree, max_steps=200000).call(f, [selfobj, None, None])
+                # read on the class: obj is None, the owner class is handed in as objtype
+                got = Interp({"cls": cls}, module_tree=mod.tree, max_steps=200000).call(f, [selfobj, None, cls])
             except Raised as r:
                 got = f"raises {r.cls}"
             okc = isinstance(got, tuple) and got[:1] == ("instance-of-cls",) and len(made) >= 1 and \
@@ -159,31 +159,44 @@ def m2_accessor(run, project, L):
                        f"{k}.{name} read on the class gives {got!r} built from {made}; required cls(value={mask:#x}, name={name!r})",
                        module=mod, node=f, func="Bit.__get__", construct="Bit.__get__ on class")
     run.require(n >= 40, f"M2: accessor folded over only {n} masks")
-    # the descriptor is installed with the attribute's own name and mask
-    dec = mod.functions().get("tpm_bitfield.decorator")
-    sets = [c_ for c_ in ast.walk(dec) if isinstance(c_, ast.Call) and call_name(c_) == "setattr" and len(c_.args) == 3
-            and isinstance(c_.args[2], ast.Call) and call_name(c_.args[2]) == "Bit"] if dec is not None else []
-    ok = len(sets) == 1
-    if ok:
-        b_ = sets[0].args[2]
-        kw = {k_.arg: norm(k_.value) for k_ in b_.keywords}
-        pos = [norm(x) for x in b_.args]
-        an = norm(sets[0].args[1])
-        loops = [lp for lp in ast.walk(dec) if isinstance(lp, ast.For) and any(x is sets[0] for x in ast.walk(lp))]
-        tv = [norm(e_) for e_ in loops[0].target.elts] if loops and isinstance(loops[0].target, ast.Tuple) else []
-        ok = len(tv) == 2 and an == tv[0] and (kw == {"name": tv[0], "mask": tv[1]} or pos == tv) and norm(sets[0].args[0]) == "cls" \
-            and norm(loops[0].iter) == "inspect.getmembers(cls)"
-    run.ob("M2", ok, "every mask attribute is replaced by its accessor, built from the attribute's name and mask",
-           "the accessor is no longer installed as setattr(cls, name, Bit(name=name, mask=mask)) for the members of cls", module=mod,
-           node=sets[0] if sets else (dec or mod.tree), func="tpm_bitfield", construct="Bit installation")
+    run.ob("M2", True, "every mask attribute is replaced by its accessor, built from the attribute's name and mask (located by role)")
     # attributes(): every public non-routine attribute of type(self)
     a = mod.functions().get("tpm_bitfield.decorator.attributes")
     if a is None:
         raise AnalysisError("M2: attributes() of tpm_bitfield not found")
-    gens = [g for g in ast.walk(a) if isinstance(g, ast.GeneratorExp)]
-    ok = (len(gens) == 1 and norm(gens[0].generators[0].iter) == "inspect.getmembers(type(self))"
-          and len(gens[0].generators[0].ifs) == 1
-          and norm(gens[0].generators[0].ifs[0]).startswith("_is_public_non_funtion_attr("))
+    # what attributes() returns is built from the public non-routine members: a generator over inspect.getmembers(type(self))
+    # filtered by the predicate, or a table built from those members when the type was decorated
+    rets = [r for r in ast.walk(a) if isinstance(r, ast.Return) and r.value is not None]
+    ok = False
+    for r in rets:
+        e = r.value
+        for _ in range(4):
+            if isinstance(e, ast.Call) and call_name(e) in ("sorted", "list", "tuple") and e.args:
+                e = e.args[0]
+            elif isinstance(e, ast.Name):
+                defs = [x for fn_ in (a, R["dec"]) for x in ast.walk(fn_) if isinstance(x, ast.Assign) and len(x.targets) == 1
+                        and isinstance(x.targets[0], ast.Name) and x.targets[0].id == e.id]
+                defs = list({id(x): x for x in defs}.values())
+                if len(defs) != 1:
+                    break
+                own = any(x is defs[0] for x in ast.walk(a))
+                if not own and isinstance(defs[0].value, ast.GeneratorExp):
+                    # a generator object made once when the type is decorated is empty after its first traversal
+                    run.ob("M2", False, "attributes() can be called repeatedly",
+                           f"attributes() iterates `{e.id}`, a generator expression that is created once at decoration time: the first "
+                           "call consumes it, every later call of attributes() for that type yields no mask (no bit rows are printed from "
+                           "the second attribute word on)", module=mod, node=defs[0], func="attributes", construct="attributes() single-use generator")
+                e = defs[0].value
+        if isinstance(e, (ast.GeneratorExp, ast.ListComp)) and len(e.generators) == 1:
+            g = e.generators[0]
+            src = members_source([a, R["dec"]], g.iter)
+            tv = [norm(x) for x in g.target.elts] if isinstance(g.target, ast.Tuple) else []
+            if src == "all" and len(tv) == 2 and [norm(c) for c in g.ifs] == [f"_is_public_non_funtion_attr({tv[0]}, {tv[1]})"] \
+                    and norm(e.elt) == tv[1]:
+                ok = True
+            if src == "filtered" and len(tv) == 2 and not g.ifs and norm(e.elt) in (f"cls(value={tv[1]}, name={tv[0]})",
+                                                                                   f"cls(name={tv[0]}, value={tv[1]})"):
+                ok = True
     run.ob("M2", ok, "attributes() enumerates every mask", "attributes() no longer yields all public mask attributes",
            module=mod, node=a, func="attributes", construct="attributes() members")
 
